@@ -381,6 +381,25 @@ Fixpoint write_records (pr : posrule) (chromname : Z) (vcf_samples : list Z) (tg
       end
   end.
 
+(* specification of the changed-genotype entries of one record: the calls of the given samples whose
+   genotype (allele multiset) differs between the input record r and the output calls `outs`,
+   listed with position column v_pos r + d  (d = 1: the VCF POS) *)
+Definition diff_entry (d : Z) (chromname : Z) (r : vrec) (outs : list (Z * list Z)) (s : Z) : list gt_entry :=
+  match lookup s (v_gts r), lookup s outs with
+  | Some gi, Some go =>
+      if list_eqb Z.eqb go (gcode gi) then []
+      else [mkGE s chromname (v_pos r + d) (v_ref r) (hd 0 (v_alts r)) (gcode gi) go]
+  | _, _ => []
+  end.
+Definition record_changes (d : Z) (chromname : Z) (samples : list Z) (r : vrec) (outs : list (Z * list Z))
+  : list gt_entry := flat_map (diff_entry d chromname r outs) samples.
+
+(* without --distrust-genotypes the solver's super-reads reproduce the input genotypes (C01/C05) *)
+Definition superreads_conform (tg : list target) (rs : list vrec) : Prop :=
+  forall t r a b g, In t tg -> In r rs ->
+    lookup (v_pos r) (fst (snd t)) = Some (a, b) -> lookup (fst t) (v_gts r) = Some g ->
+    isort Z.leb [a; b] = gcode g.
+
 (* ------------------------------------------------------------------ the run *)
 Record chrom_result := mkCR {
   cr_reads : list (list read_entry);       (* one ReadList.write call per family *)
@@ -434,6 +453,15 @@ Definition run_repaired := run repaired_rule repaired_rule repaired_posrule.
 (* all (chromosome, family) instances that the run processes, in processing order *)
 Definition instances (cs : list chrom) : list (chrom * inst) :=
   flat_map (fun c => if c_selected c then map (pair c) (c_insts c) else []) cs.
+
+(* the differences between input VCF (cs) and output genotypes (ovcf) over the processed chromosomes,
+   record by record, for the samples being phased *)
+Definition target_names (c : chrom) : list Z := map fst (targets_of (c_insts c)).
+Definition chrom_diffs (d : Z) (c : chrom) (ovc : list (list (Z * list Z))) : list gt_entry :=
+  concat (map (fun ro => record_changes d (c_name c) (target_names c) (fst ro) (snd ro))
+              (combine (c_records c) ovc)).
+Definition run_diffs (d : Z) (cs : list chrom) (ovcf : list (list (list (Z * list Z)))) : list gt_entry :=
+  flat_map (fun co => if c_selected (fst co) then chrom_diffs d (fst co) (snd co) else []) (combine cs ovcf).
 
 (* ------------------------------------------------------------------ well-formedness of the traced data
    (representation invariants of the Python objects; checked on every real trace) *)
